@@ -236,6 +236,34 @@ impl Canon for Shadow {
     }
 }
 
+/// The options of one field spread over several `zlink` attributes, `rename` in the first, in a later
+/// one, and next to another key (the derive skips keys it does not know: utils.rs parse_zlink_string_attr).
+#[derive(Debug, ReplyError)]
+#[zlink(interface = "org.example.Spread", crate = "zlink_core")]
+enum Spread {
+    Quota {
+        #[zlink(since = "1.2")]
+        #[zlink(rename = "maxBytes")]
+        max_bytes: u32,
+        #[zlink(rename = "usedBytes")]
+        #[zlink(since = "2")]
+        used_bytes: u32,
+        #[zlink(since = "1", rename = "fileName")]
+        file_name: String,
+    },
+    Busy,
+}
+impl Canon for Spread {
+    fn canon(&self) -> Value {
+        match self {
+            Spread::Quota { max_bytes, used_bytes, file_name } => {
+                var(0, vec![max_bytes.canon(), used_bytes.canon(), file_name.canon()])
+            }
+            Spread::Busy => var(1, vec![]),
+        }
+    }
+}
+
 /// Fields named with raw identifiers, with and without `#[zlink(rename)]`.
 #[derive(Debug, ReplyError)]
 #[zlink(interface = "org.example.Raw", crate = "zlink_core")]
@@ -481,6 +509,7 @@ macro_rules! reply_e {
             "empty" => reply_case!($frame, $P, Empty),
             "shadow" => reply_case!($frame, $P, Shadow),
             "raw" => reply_case!($frame, $P, Raw),
+            "spread" => reply_case!($frame, $P, Spread),
             x => panic!("unknown error type {x}"),
         }
     };
